@@ -855,6 +855,8 @@ def common_observable(o):
 
 
 def write_evidence(prop, tier, seed, results, violations, knowns, inconcl, nvalid, wall):
+    if os.environ.get('VERIF_REPO', '/repo') != '/repo':
+        return          # exploratory run against a scratch copy (tools/mutate.py): evidence describes /repo only
     os.makedirs(os.path.join(VERIF, 'evidence'), exist_ok=True)
     obl = sum(r['obligations'] for r in results)
     dis = sum(r['discharged'] for r in results)
